@@ -256,6 +256,17 @@ def gen_cases(run):
                           trees=1 + (k % 2), f=0.0, mode='zero_one', metric=None, tune=bool(k % 2), temp=None, space=[0.0, 0.3] if k % 2 else None,
                           set_temp_after=None, keep=0.99, cap=12, outputs=2, classes=2, pickle=bool(k % 2), n_tree_iters=[1, 2][k % 2],
                           dseed=r.randint(0, 10 ** 6)))
+    # every kernel-specific constructor argument away from its default (the loader must rebuild the leaves with all of them)
+    opts = [('sum_power_laplace', {'const_mix': 0.25, 'power': 3}), ('sum_power_laplace', {'const_mix': 0.4, 'power': 1}),
+            ('lpq', {'norm_p': 1.2}), ('l2', {'agop_power': 0.25}), ('sum_power_laplace', {'const_mix': 0.1, 'power': 4, 'eps': 1e-6}),
+            ('lpq', {'norm_p': 1.0})]
+    for k in range(4 if run.tier == 'quick' else 18):
+        kern = opts[k % len(opts)]
+        cases.append(dict(family='fitted-models', task=['reg', 'class'][k % 2], kernel=list(kern), q=[1.0, 0.8][k % 2] if kern[0] != 'sum_power_laplace' else 1.2,
+                          diag=bool(k % 3 == 2), adaptive=False, bandwidth=r.choice([2.0, 5.0]), iters=r.choice([1, 2]), L=[30, 1000][k % 2],
+                          n=r.choice([70, 100]), d=3, method='random', trees=1 + (k % 2), f=0.0, mode=['zero_one', 'prevalence'][(k // 2) % 2],
+                          metric=None, tune=False, temp=[None, 0.3][(k // 2) % 2], space=None, set_temp_after=None, keep=0.99, cap=12,
+                          outputs=1 + (k % 2), classes=3, pickle=bool(k % 2), dseed=r.randint(0, 10 ** 6)))
     # categorical features with non-identity code vectors and the kernels' categorical path
     cat_kernels = [k for k in KERNELS if k[0] in ('l2', 'l1', 'lpq')]
     for k in range(3 if run.tier == 'quick' else 12):
